@@ -10,6 +10,35 @@ def showConcat (r : Except Err (Bool × List (Nat × Nat))) : String :=
   | .ok (sc, l) => (if sc then "o " else "m ") ++ showPairs l
   | .error e => showErr e
 
+/-- C-order offset of tail coordinates -/
+def flatIdx : List Nat → List Nat → Nat
+  | [], _ => 0
+  | _ :: ns, j :: js => j * ns.foldl (· * ·) 1 + flatIdx ns js
+  | _ :: ns, [] => flatIdx ns []
+
+/-- the harness' coordinate-coded parts: element (k, t) of part p holds (start_p + k) * rowsz + offset(t) -/
+def codedParts (lens tailShape : List Nat) : List (NDArr Nat) :=
+  let rowsz := tailShape.foldl (· * ·) 1
+  (lens.zip (partStarts lens)).map fun (n, off) =>
+    ⟨n :: tailShape, fun js => match js with
+      | [] => 0
+      | k :: t => (off + k) * rowsz + flatIdx tailShape t⟩
+
+def allCoords : List Nat → List (List Nat)
+  | [] => [[]]
+  | n :: ns => (List.range n).flatMap fun j => (allCoords ns).map (j :: ·)
+
+def showArr (r : Except Err (NDArr Nat)) : String :=
+  match r with
+  | .error e => showErr e
+  | .ok a =>
+    let vals := (allCoords a.shape).map a.get
+    showShape a.shape ++ " " ++ (if vals.isEmpty then "-" else showNatList vals)
+
+/-- `-` = no tail axes, otherwise `;`-separated position lists, `e` = empty list -/
+def parseTails (s : String) : Option (List (List Nat)) :=
+  if s = "-" then some [] else (s.splitOn ";").mapM fun t => if t = "e" then some [] else parseNatList t
+
 /-- per-axis grammar test for a whole request -/
 def inGrammar (shape : List Nat) (k1 k2 : List Ix) : Bool :=
   let k1p := padTrunc shape.length k1
@@ -33,7 +62,9 @@ def specAll : List Nat → List Ix → List Ix → Except Err (List Sel)
     spec <shape> <k1> <k2>     numpy composition, prefixed by G1/G0 (inside the property's grammar or not)
     ishape <shape> <k1>        `_initial_shape`
     concat <lens> <ix>         ConcatenatedLazyIndexer head axis (mirror)
-    concatspec <lens> <ix>     spec -/
+    concatspec <lens> <ix>     spec
+    concatfull <lens> <tailshape> <ix> <tails>      whole request on coordinate-coded parts (mirror)
+    concatfullspec <lens> <tailshape> <ix> <tails>  the same key on the concatenation -/
 def step (line : String) : String :=
   match line.splitOn " " with
   | ["get", sh, k1, k2] =>
@@ -58,6 +89,14 @@ def step (line : String) : String :=
     match parseNatList lens, parseIx ix with
     | some lens, some ix => showConcat (concatSpec lens ix)
     | _, _ => "bad-op"
+  | ["concatfull", lens, ts, ix, tails] =>
+    match parseNatList lens, parseShape ts, parseIx ix, parseTails tails with
+    | some lens, some ts, some ix, some tails => showArr (concatFull (codedParts lens ts) ix tails)
+    | _, _, _, _ => "bad-op"
+  | ["concatfullspec", lens, ts, ix, tails] =>
+    match parseNatList lens, parseShape ts, parseIx ix, parseTails tails with
+    | some lens, some ts, some ix, some tails => showArr (concatFullSpec (codedParts lens ts) ts ix tails)
+    | _, _, _, _ => "bad-op"
   | _ => "bad-op"
 
 def main : IO Unit := Drv.loop step
